@@ -6057,7 +6057,12 @@ impl WalStorePort for FilesystemWalStore {
     }
 
     fn read_snapshot(&self) -> Result<WalStoreSnapshot, WalStoreError> {
-        let (frames, commits, _) = read_filesystem_segments(&self.root)?;
+        let (frames, commits, torn_tail) = read_filesystem_segments(&self.root)?;
+        if torn_tail {
+            // A partially written record is an uncommitted tail: appending after it would make
+            // the segment undecodable.  Ordinary writable WAL recovery must remove it first.
+            return Err(WalStoreError::SegmentHasUncommittedTail(self.segment_id));
+        }
         Ok(WalStoreSnapshot { frames, commits })
     }
 
